@@ -1,9 +1,32 @@
 """C14 - undeliverable messages are reported."""
+import random
 from ..framework import Check
-from .. import mgr_check
+from .. import mgr_check, mgr_common as C
 
 THEOREMS = ['C14_unwritable_reported', 'C14_logger_waited_for', 'C14_write_failure_reported', 'C14_notice_content', 'C14_no_cascade', 'C14_guarded_types', 'C14_others_still_served', 'C14_ex']
 CHECKERS = ['C14', 'C03']
+
+
+def directed(rng: random.Random, tier: str):
+    """undeliverable FAILED_MESSAGE / RTMA_LOG* messages (published by a client, so at every type id of the family)
+    must not produce a notice; every neighbouring type id must"""
+    out = []
+    for t in [8, 40, 41, 42, 43, 44, 45, 7, 9, 39, 46]:
+        for how in ("unwritable", "fault"):
+            hs = C.History(loglevel=60, tag="no-cascade")
+            for _ in range(3):
+                hs.round([], [], 0, accept=True)
+            hs.round([(1, hs.connect_v2(logger=1, mod_id=0))], [1, 2, 3], 0)
+            hs.round([(1, hs.sub("sub", C.ALL))], [1, 2, 3], 0)
+            hs.round([(2, hs.connect_v1(src_mod=20)), (3, hs.connect_v1(src_mod=21))], [1, 2, 3], 0)
+            hs.round([(2, hs.sub("sub", t))], [1, 2, 3], 0)
+            if how == "fault":
+                hs.fault(2, 0)
+                hs.round([(3, hs.publish(t, b"q" * 8, src_mod=21))], [1, 2, 3], 1)
+            else:
+                hs.round([(3, hs.publish(t, b"q" * 8, src_mod=21))], [1, 3], 1)
+            out.append(hs)
+    return out
 
 
 def run(chk: Check):
@@ -12,6 +35,7 @@ def run(chk: Check):
         model_profiles={'faults': 260, 'routing': 100},
         oracle_flavors={'drops': 320, 'routing': 120},
         checkers=CHECKERS,
+        extra_histories=directed,
         assumptions=['a recipient that already died while the notice / CLIENT_CLOSED caused by another undeliverable recipient of the same message was delivered to it gets its notice for that nested message (it is no longer a subscriber when its turn comes): tolerated by the oracle, see DESIGN.md C14'])
 
 
